@@ -9,7 +9,7 @@ namespace Neumann.TwoPC
 
 /-! ### store -/
 
-theorem sget_sput (s : Store) (k v k' : Nat) :
+theorem sget_sput (s : Store) (k : Nat) (v : Val) (k' : Nat) :
     sget (sput s k v) k' = if k = k' then some v else sget s k' := by
   simp [sput, sget]
 
@@ -79,13 +79,15 @@ theorem applyUndos_ok {s : Store} {us : List Undo} (h : ∀ u ∈ us, undoOk s u
       undoOk_of_sget_eq (ihr u.key) (h u (List.mem_cons_self ..))
     rw [applyUndo_ok hu, ihr]
 
-theorem sget_applyOp {s : Store} {op : Op} {k : Nat} (h : op.key ≠ k) :
+theorem sget_applyOp {s : Store} {op : Op} {k : Nat} (h : op.writeKey ≠ k) :
     sget (applyOp s op) k = sget s k := by
-  cases op with
-  | put k0 v => simp only [applyOp, sget_sput]; simp only [Op.key] at h; simp [h]
-  | del k0 => simp only [applyOp, sget_sdel]; simp only [Op.key] at h; simp [h]
+  unfold applyOp
+  split
+  · rw [sget_sput]; simp [h]
+  · rw [sget_sdel]; simp [h]
+  · rfl
 
-theorem sget_applyOps {s : Store} {ops : List Op} {k : Nat} (h : ∀ op ∈ ops, op.key ≠ k) :
+theorem sget_applyOps {s : Store} {ops : List Op} {k : Nat} (h : ∀ op ∈ ops, op.writeKey ≠ k) :
     sget (applyOps s ops) k = sget s k := by
   induction ops generalizing s with
   | nil => rfl
@@ -215,7 +217,7 @@ theorem mem_removePrepared {ps : List PreparedTx} {tx : Nat} {pt : PreparedTx} :
 
 structure PInv (now nextHandle : Nat) (p : Participant) : Prop where
   undoMatch : ∀ pt ∈ p.prepared, ∀ u ∈ pt.undo, undoOk p.store u
-  undoKeys : ∀ pt ∈ p.prepared, ∀ u ∈ pt.undo, ∃ op ∈ pt.ops, op.key = u.key
+  undoKeys : ∀ pt ∈ p.prepared, ∀ u ∈ pt.undo, ∃ op ∈ pt.ops, op.undoKey = u.key
   held : ∀ pt ∈ p.prepared, ∀ op ∈ pt.ops,
       ∃ l, findLock p.locks.locks op.key = some l ∧ l.tx = pt.tx ∧ l.handle = pt.handle
   prepHandleLt : ∀ pt ∈ p.prepared, pt.handle < nextHandle
@@ -228,23 +230,16 @@ theorem PInv.mono {now nh nh' : Nat} {p : Participant} (h : PInv now nh p) (hle 
    h.handleDistinct, h.notExpired⟩
 
 /-- the tail shared by `commit` and `abort`: drop the prepared entry, release its handle, and
-    change the store at most on the keys of its own operations -/
+    leave the store as it is on every key whose undo image another prepared transaction holds -/
 theorem PInv.finish {now nh : Nat} {p : Participant} (h : PInv now nh p) {pt : PreparedTx}
     (hpt : pt ∈ p.prepared) (store' : Store)
-    (hst : ∀ k, (∀ op ∈ pt.ops, op.key ≠ k) → sget store' k = sget p.store k) :
+    (hst : ∀ pt' ∈ p.prepared, pt'.tx ≠ pt.tx → ∀ u ∈ pt'.undo, sget store' u.key = sget p.store u.key) :
     PInv now nh { prepared := removePrepared p.prepared pt.tx,
                   locks := p.locks.releaseByHandle pt.handle, store := store' } := by
   constructor
   · intro pt' hpt' u hu
     obtain ⟨h1, h2⟩ := mem_removePrepared.1 hpt'
-    refine undoOk_of_sget_eq (hst u.key ?_) (h.undoMatch pt' h1 u hu)
-    intro op hop heq
-    obtain ⟨op', hop', hk⟩ := h.undoKeys pt' h1 u hu
-    obtain ⟨l, hl, htx, _⟩ := h.held pt hpt op hop
-    obtain ⟨l', hl', htx', _⟩ := h.held pt' h1 op' hop'
-    rw [heq, ← hk, hl'] at hl
-    cases hl
-    exact h2 (htx'.symm.trans htx)
+    exact undoOk_of_sget_eq (hst pt' h1 h2 u hu) (h.undoMatch pt' h1 u hu)
   · intro pt' hpt'; exact h.undoKeys pt' (mem_removePrepared.1 hpt').1
   · intro pt' hpt' op hop
     obtain ⟨h1, h2⟩ := mem_removePrepared.1 hpt'
@@ -263,7 +258,14 @@ theorem PInv.finish {now nh : Nat} {p : Participant} (h : PInv now nh p) {pt : P
     simp only [LockTable.releaseByHandle, LockTable.releaseWhere] at hl
     exact h.notExpired l (List.mem_filter.1 hl).1
 
-theorem PInv.commit {now nh : Nat} {p : Participant} (h : PInv now nh p) (tx : Nat) :
+/-- the lock discipline among the operations prepared on one participant -/
+def PDisc (p : Participant) : Prop :=
+  ∀ pt ∈ p.prepared, ∀ pt' ∈ p.prepared, ∀ op ∈ pt.ops, ∀ op' ∈ pt'.ops,
+    op.writeKey = op'.undoKey → op.key = op'.key
+
+/-- `commit` writes only keys that no OTHER prepared transaction holds an undo image of: such a key
+    would (lock discipline) be covered by a logical key that both transactions have locked. -/
+theorem PInv.commit {now nh : Nat} {p : Participant} (h : PInv now nh p) (hd : PDisc p) (tx : Nat) :
     PInv now nh (p.commit tx).1 := by
   unfold Participant.commit
   split
@@ -271,7 +273,17 @@ theorem PInv.commit {now nh : Nat} {p : Participant} (h : PInv now nh p) (tx : N
   · rename_i pt hf
     obtain ⟨hm, htx⟩ := findPrepared_some hf
     rw [← htx]
-    exact h.finish hm _ (fun k hk => sget_applyOps hk)
+    refine h.finish hm _ ?_
+    intro pt' h1 h2 u hu
+    apply sget_applyOps
+    intro op hop heq
+    obtain ⟨op', hop', hk⟩ := h.undoKeys pt' h1 u hu
+    have hkk : op.key = op'.key := hd pt hm pt' h1 op hop op' hop' (heq.trans hk.symm)
+    obtain ⟨l, hl, htx1, _⟩ := h.held pt hm op hop
+    obtain ⟨l', hl', htx', _⟩ := h.held pt' h1 op' hop'
+    rw [hkk, hl'] at hl
+    cases hl
+    exact h2 (htx'.symm.trans htx1)
 
 theorem PInv.abort {now nh : Nat} {p : Participant} (h : PInv now nh p) (tx : Nat) :
     PInv now nh (p.abort tx).1 ∧ ∀ k, sget (p.abort tx).1.store k = sget p.store k := by
@@ -283,7 +295,7 @@ theorem PInv.abort {now nh : Nat} {p : Participant} (h : PInv now nh p) (tx : Na
     have hs : ∀ k, sget (applyUndos p.store pt.undo) k = sget p.store k :=
       fun k => applyUndos_ok (h.undoMatch pt hm) k
     rw [← htx]
-    exact ⟨h.finish hm _ (fun k _ => hs k), hs⟩
+    exact ⟨h.finish hm _ (fun _ _ _ u _ => hs u.key), hs⟩
 
 theorem prepare_store (p : Participant) (now nh tx : Nat) (ops : List Op) :
     (p.prepare now nh tx ops).1.store = p.store := by
@@ -296,7 +308,7 @@ theorem prepare_eq (p : Participant) (now nh tx : Nat) (ops : List Op) :
     (∃ lt, p.locks.tryLock now nh tx (ops.map Op.key) = .ok lt ∧
       p.prepare now nh tx ops =
         ({ p with locks := lt,
-                  prepared := ⟨tx, nh, ops, now, (ops.map Op.key).map (capture p.store)⟩ ::
+                  prepared := ⟨tx, nh, ops, now, ops.map (fun op => capture p.store op.undoKey)⟩ ::
                     removePrepared p.prepared tx }, .yes nh (ops.map Op.key))) := by
   unfold Participant.prepare
   dsimp only
@@ -327,13 +339,13 @@ theorem PInv.prepare {now nh : Nat} {p : Participant} (h : PInv now nh p) (tx : 
       · intro pt' hpt' u hu
         rcases List.mem_cons.1 hpt' with rfl | h1
         · simp only [List.mem_map] at hu
-          obtain ⟨k, _, rfl⟩ := hu
-          exact capture_ok p.store k
+          obtain ⟨op, _, rfl⟩ := hu
+          exact capture_ok p.store op.undoKey
         · exact h.undoMatch pt' (mem_removePrepared.1 h1).1 u hu
       · intro pt' hpt' u hu
         rcases List.mem_cons.1 hpt' with rfl | h1
         · simp only [List.mem_map] at hu
-          obtain ⟨k, ⟨op, hop, rfl⟩, rfl⟩ := hu
+          obtain ⟨op, hop, rfl⟩ := hu
           exact ⟨op, hop, (capture_key _ _).symm⟩
         · exact h.undoKeys pt' (mem_removePrepared.1 h1).1 u hu
       · intro pt' hpt' op hop
@@ -366,6 +378,54 @@ theorem PInv.prepare {now nh : Nat} {p : Participant} (h : PInv now nh p) (tx : 
         · simp [KeyLock.expired]
 
 /-! ### the system -/
+
+/-- `lockDiscipline` as a proposition -/
+def Disc (U : List Op) : Prop := ∀ a ∈ U, ∀ b ∈ U, a.writeKey = b.undoKey → a.key = b.key
+
+theorem lockDiscipline_iff (U : List Op) : lockDiscipline U = true ↔ Disc U := by
+  simp only [lockDiscipline, List.all_eq_true, Bool.or_eq_true, bne_iff_ne, ne_eq, beq_iff_eq, Disc]
+  constructor
+  · intro h a ha b hb he
+    rcases h a ha b hb with h1 | h1
+    · exact absurd he h1
+    · exact h1
+  · intro h a ha b hb
+    by_cases he : a.writeKey = b.undoKey
+    · exact Or.inr (h a ha b hb he)
+    · exact Or.inl he
+
+theorem Disc.sub {U V : List Op} (h : Disc V) (hs : ∀ a ∈ U, a ∈ V) : Disc U :=
+  fun a ha b hb => h a (hs a ha) b (hs b hb)
+
+/-- every operation that travels in a PREPARE or sits in a prepared record was asked for by a client,
+    and the clients' operations keep the lock discipline -/
+structure DInv (s : Sys) : Prop where
+  disc : Disc (allOps s.specs)
+  msgOps : ∀ tx sh ops, Msg.prepare tx sh ops ∈ s.msgs → ∀ op ∈ ops, op ∈ allOps s.specs
+  prepOps : ∀ p ∈ s.parts, ∀ pt ∈ p.prepared, ∀ op ∈ pt.ops, op ∈ allOps s.specs
+
+theorem DInv.pdisc {s : Sys} (h : DInv s) {p : Participant} (hp : p ∈ s.parts) : PDisc p :=
+  fun pt hpt pt' hpt' op hop op' hop' =>
+    h.disc op (h.prepOps p hp pt hpt op hop) op' (h.prepOps p hp pt' hpt' op' hop')
+
+theorem DInv.init (stores : List Store) (a b c : Nat) : DInv (Sys.init stores a b c) := by
+  refine ⟨?_, ?_, ?_⟩
+  · intro a ha; simp [Sys.init, allOps] at ha
+  · intro tx sh ops hm; simp [Sys.init] at hm
+  · intro p hp pt hpt
+    simp only [Sys.init, List.mem_map] at hp
+    obtain ⟨st, _, rfl⟩ := hp
+    simp at hpt
+
+/-- frame: same clients, no new PREPARE message, no new prepared record -/
+theorem DInv.frame {s s' : Sys} (h : DInv s) (hs : s'.specs = s.specs)
+    (hm : ∀ tx sh ops, Msg.prepare tx sh ops ∈ s'.msgs → Msg.prepare tx sh ops ∈ s.msgs)
+    (hp : ∀ p' ∈ s'.parts, ∀ pt ∈ p'.prepared, ∃ p ∈ s.parts, pt ∈ p.prepared) : DInv s' := by
+  refine ⟨by rw [hs]; exact h.disc, ?_, ?_⟩
+  · intro tx sh ops hmm; rw [hs]; exact h.msgOps tx sh ops (hm tx sh ops hmm)
+  · intro p' hp' pt hpt
+    obtain ⟨p, hpm, hptm⟩ := hp p' hp' pt hpt
+    rw [hs]; exact h.prepOps p hpm pt hptm
 
 def SInv (s : Sys) : Prop := ∀ p ∈ s.parts, PInv s.now s.nextHandle p
 
@@ -421,7 +481,7 @@ theorem mem_set {α : Type} {l : List α} {i : Nat} {a b : α} (h : b ∈ l.set 
 
 /-- what one event of the alphabet does to the participants: the invariant is kept, and every
     shard's data is unchanged unless the event delivers a commit message -/
-theorem SInv.step {s : Sys} (h : SInv s) (e : Ev) (ha : s.inAlphabet e = true) :
+theorem SInv.step {s : Sys} (h : SInv s) (hD : DInv s) (e : Ev) (ha : s.inAlphabet e = true) :
     SInv (s.step e) ∧
     ((∀ i tx sh, e = .deliver i → s.msgs[i]? ≠ some (Msg.commit tx sh)) →
       ∀ sh k, sget ((s.step e).storeOf sh) k = sget (s.storeOf sh) k) := by
@@ -432,6 +492,7 @@ theorem SInv.step {s : Sys} (h : SInv s) (e : Ev) (ha : s.inAlphabet e = true) :
     · exact ⟨h, fun _ _ _ => rfl⟩
     · exact ⟨h, fun _ _ _ => rfl⟩
   | sweep => exact ⟨h, fun _ _ _ => rfl⟩
+  | forge tx sh v => exact ⟨h, fun _ _ _ => rfl⟩
   | coordCommit tx =>
     simp only [Sys.step, Sys.stepR]
     split
@@ -496,7 +557,7 @@ theorem SInv.step {s : Sys} (h : SInv s) (e : Ev) (ha : s.inAlphabet e = true) :
           · intro q hq
             rcases mem_set hq with h1 | rfl
             · exact h q h1
-            · exact (h p hpm).commit tx
+            · exact (h p hpm).commit (hD.pdisc hpm) tx
           · intro hne
             exact absurd hm (hne i tx sh rfl)
       | abort tx sh =>
@@ -514,19 +575,189 @@ theorem SInv.step {s : Sys} (h : SInv s) (e : Ev) (ha : s.inAlphabet e = true) :
             simp only [Sys.storeOf]
             exact sget_store_set hp ((h p hpm).abort tx).2 sh' k
 
-theorem SInv.reach {s0 s : Sys} (h0 : SInv s0) (hr : Reach s0 s) : SInv s := by
+theorem mem_allOps_append {specs : List TxSpec} {sp : TxSpec} {op : Op} :
+    op ∈ allOps (specs ++ [sp]) ↔ op ∈ allOps specs ∨ op ∈ sp.ops.flatMap (·.2) := by
+  simp [allOps]
+
+theorem opsFor_sub (sp : TxSpec) (sh : Nat) : ∀ op ∈ sp.opsFor sh, op ∈ sp.ops.flatMap (·.2) := by
+  intro op hop
+  unfold TxSpec.opsFor at hop
+  split at hop
+  · rename_i e he
+    exact List.mem_flatMap.2 ⟨e, List.mem_of_find?_eq_some he, hop⟩
+  · simp at hop
+
+theorem DInv.step {s : Sys} (h : DInv s) (e : Ev) (ha : s.inAlphabet e = true) : DInv (s.step e) := by
+  have hparts : ∀ (s' : Sys), s'.parts = s.parts →
+      ∀ p' ∈ s'.parts, ∀ pt ∈ p'.prepared, ∃ p ∈ s.parts, pt ∈ p.prepared :=
+    fun s' he p' hp' pt hpt => ⟨p', he ▸ hp', hpt⟩
+  cases e with
+  | begin shards ops sim =>
+    simp only [Sys.step, Sys.stepR]
+    split
+    · exact h
+    · rename_i r hb
+      simp only [Sys.inAlphabet] at ha
+      have hd := (lockDiscipline_iff _).1 ha
+      refine ⟨?_, ?_, ?_⟩
+      · intro a haa b hbb
+        apply hd
+        · rcases mem_allOps_append.1 haa with h1 | h1
+          · exact List.mem_append.2 (Or.inl h1)
+          · exact List.mem_append.2 (Or.inr h1)
+        · rcases mem_allOps_append.1 hbb with h1 | h1
+          · exact List.mem_append.2 (Or.inl h1)
+          · exact List.mem_append.2 (Or.inr h1)
+      · intro tx sh ops' hm op hop
+        apply mem_allOps_append.2
+        rcases List.mem_append.1 hm with h1 | h1
+        · exact Or.inl (h.msgOps tx sh ops' h1 op hop)
+        · simp only [List.mem_map, Msg.prepare.injEq] at h1
+          obtain ⟨sh', _, _, _, rfl⟩ := h1
+          exact Or.inr (opsFor_sub _ _ op hop)
+      · intro p hp pt hpt op hop
+        exact mem_allOps_append.2 (Or.inl (h.prepOps p hp pt hpt op hop))
+  | sweep =>
+    refine h.frame rfl ?_ (hparts _ rfl)
+    intro tx sh ops hm
+    simp only [Sys.step, Sys.stepR, Sys.drain, List.mem_append] at hm
+    rcases hm with h1 | h1
+    · exact h1
+    · simp only [abortMsgs, List.mem_flatMap, List.mem_map] at h1
+      obtain ⟨_, _, _, _, h2⟩ := h1
+      cases h2
+  | tick d => exact h.frame rfl (fun _ _ _ hm => hm) (hparts _ rfl)
+  | forge tx sh v =>
+    refine h.frame rfl ?_ (hparts _ rfl)
+    intro tx' sh' ops hm
+    simp only [Sys.step, Sys.stepR, List.mem_append, List.mem_singleton] at hm
+    rcases hm with h1 | h1
+    · exact h1
+    · cases h1
+  | coordCommit tx =>
+    simp only [Sys.step, Sys.stepR]
+    split
+    · refine h.frame rfl ?_ (hparts _ rfl)
+      intro tx' sh' ops hm
+      simp only [List.mem_append, List.mem_map] at hm
+      rcases hm with h1 | ⟨_, _, h2⟩
+      · exact h1
+      · cases h2
+    · exact h
+    · exact h
+  | coordAbort tx =>
+    simp only [Sys.step, Sys.stepR]
+    split
+    · refine h.frame rfl ?_ (hparts _ rfl)
+      intro tx' sh' ops hm
+      simp only [List.mem_append, List.mem_map] at hm
+      rcases hm with h1 | ⟨_, _, h2⟩
+      · exact h1
+      · cases h2
+    · exact h
+    · exact h
+  | cleanupStale sh t => simp [Sys.inAlphabet] at ha
+  | recover sh t => simp [Sys.inAlphabet] at ha
+  | deliver i =>
+    simp only [Sys.step, Sys.stepR]
+    split
+    · exact h
+    · rename_i m hm
+      have hmm : m ∈ s.msgs := List.mem_of_getElem? hm
+      cases m with
+      | vote tx sh v =>
+        simp only [Sys.deliverMsg]
+        split
+        · exact h
+        · refine h.frame rfl ?_ (hparts _ rfl)
+          intro tx' sh' ops hm'
+          simp only [Sys.drain, List.mem_append] at hm'
+          rcases hm' with h1 | h1
+          · exact h1
+          · simp only [abortMsgs, List.mem_flatMap, List.mem_map] at h1
+            obtain ⟨_, _, _, _, h2⟩ := h1
+            cases h2
+      | prepare tx sh ops =>
+        simp only [Sys.deliverMsg]
+        split
+        · exact h
+        · rename_i p hp
+          have hpm : p ∈ s.parts := List.mem_of_getElem? hp
+          refine ⟨h.disc, ?_, ?_⟩
+          · intro tx' sh' ops' hm' op hop
+            simp only [List.mem_append, List.mem_singleton] at hm'
+            rcases hm' with h1 | h1
+            · exact h.msgOps tx' sh' ops' h1 op hop
+            · cases h1
+          · intro q hq pt hpt op hop
+            rcases mem_set hq with h1 | rfl
+            · exact h.prepOps q h1 pt hpt op hop
+            · rcases prepare_eq p s.now s.nextHandle tx ops with ⟨c, he⟩ | ⟨lt, _, he⟩
+              · rw [he] at hpt; exact h.prepOps p hpm pt hpt op hop
+              · rw [he] at hpt
+                rcases List.mem_cons.1 hpt with rfl | h2
+                · exact h.msgOps tx sh ops hmm op hop
+                · exact h.prepOps p hpm pt (mem_removePrepared.1 h2).1 op hop
+      | commit tx sh =>
+        simp only [Sys.deliverMsg]
+        split
+        · exact h
+        · rename_i p hp
+          have hpm : p ∈ s.parts := List.mem_of_getElem? hp
+          refine h.frame rfl (fun _ _ _ hm' => hm') ?_
+          intro q hq pt hpt
+          rcases mem_set hq with h1 | rfl
+          · exact ⟨q, h1, hpt⟩
+          · refine ⟨p, hpm, ?_⟩
+            unfold Participant.commit at hpt
+            split at hpt
+            · exact hpt
+            · exact (mem_removePrepared.1 hpt).1
+      | abort tx sh =>
+        simp only [Sys.deliverMsg]
+        split
+        · exact h
+        · rename_i p hp
+          have hpm : p ∈ s.parts := List.mem_of_getElem? hp
+          refine h.frame rfl (fun _ _ _ hm' => hm') ?_
+          intro q hq pt hpt
+          rcases mem_set hq with h1 | rfl
+          · exact ⟨q, h1, hpt⟩
+          · refine ⟨p, hpm, ?_⟩
+            unfold Participant.abort at hpt
+            split at hpt
+            · exact hpt
+            · exact (mem_removePrepared.1 hpt).1
+
+theorem DInv.reach {s0 s : Sys} (h0 : DInv s0) (hr : Reach s0 s) : DInv s := by
   induction hr with
   | refl => exact h0
-  | step e _ ha ih => exact (ih.step e ha).1
+  | step e _ ha ih => exact ih.step e ha
+
+theorem SInv.reach {s0 s : Sys} (h0 : SInv s0) (hD : DInv s0) (hr : Reach s0 s) : SInv s := by
+  induction hr with
+  | refl => exact h0
+  | step e hr' ha ih => exact (ih.step (hD.reach hr') e ha).1
+
+/-- both invariants of the states reachable from an initial configuration -/
+theorem sinv_of_reach {stores : List Store} {a b c : Nat} {s : Sys}
+    (hr : Reach (Sys.init stores a b c) s) : SInv s ∧ DInv s :=
+  ⟨(SInv.init stores a b c).reach (DInv.init stores a b c) hr, (DInv.init stores a b c).reach hr⟩
 
 /-! ### shard data = replay of the applied commits -/
+
+theorem write_congr {a b : Store} (h : ∀ k, sget a k = sget b k) (op : Op) : op.write a = op.write b := by
+  cases op <;> simp only [Op.write, h]
 
 theorem applyOp_congr {a b : Store} (h : ∀ k, sget a k = sget b k) (op : Op) :
     ∀ k, sget (applyOp a op) k = sget (applyOp b op) k := by
   intro k
-  cases op with
-  | put k0 v => simp only [applyOp, sget_sput, h]
-  | del k0 => simp only [applyOp, sget_sdel, h]
+  unfold applyOp
+  rw [write_congr h op]
+  split
+  · simp only [sget_sput, h]
+  · simp only [sget_sdel, h]
+  · exact h k
 
 theorem applyOps_congr {a b : Store} (h : ∀ k, sget a k = sget b k) (ops : List Op) :
     ∀ k, sget (applyOps a ops) k = sget (applyOps b ops) k := by
@@ -570,6 +801,7 @@ theorem RInv.step {stores : List Store} {s : Sys} (hS : SInv s) (hR : RInv store
     · exact ⟨hR, hA⟩
   | sweep => exact ⟨hR, hA⟩
   | tick d => exact ⟨hR, hA⟩
+  | forge tx sh v => exact ⟨hR, hA⟩
   | coordCommit tx =>
     simp only [Sys.step, Sys.stepR]
     split
@@ -667,7 +899,7 @@ theorem RInv.reach {stores : List Store} {a b c : Nat} {s : Sys}
   induction hr with
   | refl => exact ⟨RInv.init stores a b c, by intro _ _ _ h; simp [Sys.init] at h⟩
   | step e hr' ha ih =>
-    exact RInv.step ((SInv.init stores a b c).reach hr') ih.1 ih.2 e ha
+    exact RInv.step (sinv_of_reach hr').1 ih.1 ih.2 e ha
 
 /-- `es` are events of the alphabet none of which delivers a commit message -/
 def Sys.quiet (s : Sys) : List Ev → Bool
